@@ -374,4 +374,47 @@ def setKw (a : AttrOpts) (conv : Val → Res) (check : Val → Bool) (_old : Val
 def lookupKey (a : AttrOpts) (conv : Val → Res) (check : Val → Bool) (v : Val) : Res :=
   validate a conv check v
 
+/-! ### primary-key attributes and values read from the database -/
+
+/-- Python `==` between attribute values as far as it matters here: a bool equals the int it denotes -/
+def keyOf : Val → Val
+  | .bool b => .int (if b then 1 else 0)
+  | .none => .none
+  | .dflt => .dflt
+  | .int i => .int i
+  | .str s => .str s
+  | .flt x => .flt x
+  | .dec x => .dec x
+  | .other t => .other t
+
+/-- `obj.pk = v` / `obj.set(pk=v)` (`Attribute.__set__`, `Entity._keyargs_to_avdicts_`) for a primary-key attribute:
+    the value is validated first; then `if new_val == pkval: return` else `throw(TypeError, 'Cannot change value of primary key')` -/
+def assignPk (a : AttrOpts) (conv : Val → Res) (check : Val → Bool) (old : Val) (v : Val) : Res :=
+  match validate a conv check v with
+  | .error e => .error e
+  | .ok r => if keyOf r == keyOf old then .ok old else .error "TypeError"     -- `return`: the object keeps the key it has
+
+/-- `IntConverter.sql2py` = `int(val)` on what an INTEGER-affinity column returns (int; text that is not a number) -/
+def intSql2py (parse : List Char → Option Int) (v : Val) : Res :=
+  match intOf parse v with
+  | .ok i => .ok (.int i)
+  | .error e => .error e
+
+/-- `Converter.sql2py` of StrConverter: the identity -/
+def strSql2py (v : Val) : Res := .ok v
+
+/-- `attr.validate(val, None, entity, from_db=True)` (`Attribute.parse_value`): `None` passes whatever the declaration says,
+    everything else goes through `converter.sql2py` only — no bound test, no py_check; `Required.validate` merely warns
+    (DatabaseContainsIncorrectEmptyValue) about NULL / '' -/
+def validateDb (_a : AttrOpts) (sql2py : Val → Res) (v : Val) : Res :=
+  match v with
+  | .none => .ok .none
+  | .dflt => sql2py .dflt
+  | .bool b => sql2py (.bool b)
+  | .int i => sql2py (.int i)
+  | .str s => sql2py (.str s)
+  | .flt x => sql2py (.flt x)
+  | .dec x => sql2py (.dec x)
+  | .other t => sql2py (.other t)
+
 end PonyVerif.Model.Validate
